@@ -307,6 +307,18 @@ func (an *Analysis) PathsOf(fn *ssa.Function) *FuncPaths {
 	return fp
 }
 
+// PathsDistinct enumerates fn's paths under the assumption that its pointer parameters denote distinct objects
+// (not cached; the caller has checked the call sites).
+func (an *Analysis) PathsDistinct(fn *ssa.Function) *FuncPaths {
+	if an.DistinctParams == nil {
+		an.DistinctParams = map[*ssa.Function]bool{}
+	}
+	an.DistinctParams[fn] = true
+	fp := an.computePaths(fn, nil)
+	delete(an.DistinctParams, fn)
+	return fp
+}
+
 // PathsWithFree enumerates a closure's paths with free-variable cells replaced by known contents.
 func (an *Analysis) PathsWithFree(fn *ssa.Function, subst, substV map[int]*Term) *FuncPaths {
 	return an.computePaths2(fn, subst, substV)
@@ -871,10 +883,34 @@ func (w *walker) store(st *pstate, addr, val *Term) {
 			delete(st.memCls, base.Key())
 		}
 	}
+	// distinct-parameter assumption: the same field of the other pointer parameters survives
+	type kept struct {
+		k, cls string
+		v      *Term
+	}
+	var keep []kept
+	if w.an.DistinctParams[w.fn] && addr.Op == "faddr" && addr.Args[0].Op == "param" && addr.Args[0].Fn == w.fn {
+		for i, prm := range w.fn.Params {
+			if i == addr.Args[0].N {
+				continue
+			}
+			if _, isPtr := prm.Type().Underlying().(*types.Pointer); !isPtr {
+				continue
+			}
+			other := &Term{Op: "faddr", Args: []*Term{{Op: "param", N: i, Fn: w.fn}}, Obj: addr.Obj}
+			if v, ok := st.mem[other.Key()]; ok {
+				keep = append(keep, kept{other.Key(), st.memCls[other.Key()], v})
+			}
+		}
+	}
 	if strings.HasPrefix(cls, "l:") {
 		st.epoch[cls]++
 	} else {
 		st.invalidate(cls)
+	}
+	for _, kp := range keep {
+		st.mem[kp.k] = kp.v
+		st.memCls[kp.k] = kp.cls
 	}
 	st.mem[k] = val
 	st.memCls[k] = cls
